@@ -243,6 +243,7 @@ type incObs struct {
 
 	termAtStart         uint64
 	lastTimeoutNow      int64
+	transferPermit      bool // became candidate on a timeout-now request and has been candidate since
 	lastConfigChange    int64
 	lastElectionTimeout int64
 	heardLeader         uint64
@@ -1148,6 +1149,16 @@ func (run *simRun) installTracer() {
 			run.led.sawLeader(ni, r.term)
 			run.led.onBecameLeader(ni)
 		}
+		if r.state != Candidate {
+			ni.obs.transferPermit = false // the permission of a timeout-now request ends with the candidacy
+		}
+	}
+	tracer.unreachable = func(r *Raft, id uint64, since time.Time, err error) {
+		if ni := run.incOf(r); ni != nil && !ni.dead && err == ErrFaultyFollower {
+			// the status flips back to "reachable" with every new connection, so the report is
+			// remembered per leader incarnation and term rather than sampled
+			run.led.x.reportedFaulty[[3]uint64{uint64(ni.node.id), r.term, id}] = true
+		}
 	}
 	tracer.roundCompleted = func(r *Raft, id uint64, rd round) {
 		ni := run.incOf(r)
@@ -1253,6 +1264,20 @@ func (run *simRun) probe(name string, args []interface{}) {
 		if ni := run.incOf(args[0].(*Raft)); ni != nil && !ni.dead && ni.obs.started {
 			res, _ := args[1].(rpcResult)
 			run.led.onTimeoutNowExit(ni, res)
+			// a fault placed where it matters: the designated successor pauses right after it
+			// has acknowledged, so the old leader's wait for the new term runs out
+			if res == success && run.phase == "chaos" && !ni.nc.Stalled && run.tape.Chance(rt.StPlan, 1, 3) {
+				after := int64(run.cfg.LatBase) * int64(run.tape.Choose(rt.StPlan, 4)) / 2
+				d := int64(200*time.Millisecond) + int64(run.cfg.HB)*int64(run.tape.Choose(rt.StPlan, 4))/2
+				run.sim.After(after, "stall-successor", func() {
+					if run.phase != "chaos" || ni.dead || ni.nc.Stalled {
+						return
+					}
+					ni.nc.Stalled = true
+					run.fault("stall_successor")
+					run.sim.After(d, "unstall", func() { ni.nc.Stalled = false })
+				})
+			}
 		}
 	case "connPool.doRPC:enter":
 		// the instant a leader sends timeout-now: that is the designation of the successor
@@ -1290,6 +1315,12 @@ func (run *simRun) probe(name string, args []interface{}) {
 		if g := run.sim.Cur(); g != nil {
 			g.User = args[0].(*replication)
 		}
+	case "candidate.startElection:enter":
+		// does this election carry a leadership-transfer permission that was really given?
+		c := args[0].(*candidate)
+		if ni := run.incOf(c.Raft); ni != nil && !ni.dead {
+			run.led.x.permitted[[2]uint64{c.nid, c.term + 1}] = ni.obs.transferPermit
+		}
 	case "storage.clearLog:enter":
 		// an installed snapshot supersedes the log: what was acknowledged beyond the snapshot
 		// index is legitimately discarded with it
@@ -1308,6 +1339,23 @@ func (run *simRun) probe(name string, args []interface{}) {
 				idx := args[1].(uint64)
 				if ni.acked >= idx {
 					ni.acked, ni.ackedTerm = idx-1, args[2].(uint64)
+				}
+				// a fault placed where it matters: die within the next few file operations, i.e.
+				// between dropping the suffix and making its replacement durable
+				if run.phase == "chaos" && run.prof.Crash > 0 && ni.crashAtIO == 0 && run.tape.Chance(rt.StDisk, run.prof.Crash, 400) {
+					if run.tape.Chance(rt.StDisk, 1, 2) {
+						ni.crashAtIO = 1 + run.tape.Choose(rt.StDisk, 8)
+						run.fault("crash_armed_at_truncation")
+					} else {
+						// entries go into the mapped file without any system call: kill by time
+						after := int64(run.cfg.LatBase)*int64(run.tape.Choose(rt.StDisk, 4))/4 + int64(run.tape.Choose(rt.StDisk, 50))*int64(time.Microsecond)
+						run.sim.After(after, "crash-at-truncation", func() {
+							if run.phase == "chaos" && !ni.dead && !ni.exited && ni.node.inc == ni {
+								run.fault("crash_soon_after_truncation")
+								run.crash(ni, "step")
+							}
+						})
+					}
 				}
 			}
 		}
@@ -1456,7 +1504,13 @@ func (run *simRun) safeObserve(ni *nodeInc) {
 	defer func() {
 		if v := recover(); v != nil {
 			ni.obsBroken = true
-			if ni.diskErrs == 0 {
+			if ni.intruder != nil {
+				// a second instance got past the lock and writes the same files
+				run.violate("C20", "two_instances", "two_instances_serve_one_directory", "the storage of %v became unreadable (%v) while a second Raft instance was running on its directory", ni, v)
+				if !run.stop {
+					run.reach("unobservable_two_instances")
+				}
+			} else if ni.diskErrs == 0 {
 				run.infra = fmt.Sprintf("oracle faulted while observing %v: %v", ni, v)
 				run.stop = true
 			} else {
@@ -1613,7 +1667,7 @@ func (run *simRun) converged() (bool, string) {
 			// contract (ErrFaultyFollower: "should be removed from cluster"), not repaired by
 			// the leader that still remembers its match index. Only that case is excused.
 			if ni.node.wiped > 0 && ldr.r.ldr != nil {
-				if repl := ldr.r.ldr.repls[ni.node.id]; repl != nil && repl.status.err == ErrFaultyFollower {
+				if repl := ldr.r.ldr.repls[ni.node.id]; repl != nil && (repl.status.err == ErrFaultyFollower || l.x.reportedFaulty[[3]uint64{uint64(ldr.node.id), ldr.r.term, uint64(ni.node.id)}]) {
 					run.reach("wiped_follower_reported_faulty")
 					continue
 				}
